@@ -247,6 +247,12 @@ Definition kw_headers (kw : list (text * text)) : list (text * text) :=
   flat_map (fun kv => if text_eqb (fst kv) [108; 111; 99; 97; 116; 105; 111; 110]
                       then [([76; 111; 99; 97; 116; 105; 111; 110], snd kv)] else []) kw.
 
+(* ------------------------------------------------------------------ raise sites outside httpexceptions.py
+   [req]: the WebOb request properties a site reads (oracle values); [raised]: the class and the
+   constructor arguments the site passes (detail, location, body_template) *)
+Record req := mkReq { r_url : text; r_path : text; r_path_info : text; r_path_url : text; r_query_string : text }.
+Record raised := mkRaised { ra_cls : text; ra_detail : option text; ra_location : text; ra_tmpl : option text }.
+
 Record output := mkOutput { o_status : text; o_ctype : text; o_charset : text; o_body : text }.
 (* Response.__call__: what reaches start_response and the body iterable *)
 Definition respond (o : obj) : output := mkOutput (ob_status o) (ob_ctype o) (ob_charset o) (ob_body o).
